@@ -648,6 +648,83 @@ fn container(_thorough: bool) -> Report {
     r
 }
 
+/// C19, the parts outside the verifier: value traversal (IppValueIterator::next uses BTreeMap iter().nth(), which Verus cannot
+/// specify) and additions onto messages with repeated groups (as a parser may produce), against the simple ordered model.
+fn c19(thorough: bool) -> Report {
+    let mut r = Report::new("c19");
+    // ---- traversal: elements of a set in order, member values in member-name order, anything else once; then it ends
+    fn expect<'a>(v: &'a IppValue) -> Vec<&'a IppValue> {
+        match v {
+            IppValue::Array(a) => a.iter().collect(),
+            IppValue::Collection(m) => { let mut ks: Vec<&String> = m.keys().collect(); ks.sort(); ks.into_iter().map(|k| &m[k]).collect() }
+            other => vec![other],
+        }
+    }
+    let scalars: Vec<IppValue> = vec![
+        IppValue::Integer(7), IppValue::Enum(3), IppValue::Boolean(true), IppValue::OctetString("o".into()), IppValue::Keyword("k".into()),
+        IppValue::TextWithoutLanguage("".into()), IppValue::NoValue, IppValue::RangeOfInteger { min: 5, max: 1 },
+        IppValue::Other { tag: 0x13, data: Default::default() }, IppValue::MemberAttrName("m".into()),
+        IppValue::TextWithLanguage { language: "en".into(), text: "t".into() },
+    ];
+    let mut vals: Vec<IppValue> = scalars.clone();
+    let width = if thorough { 6 } else { 4 };
+    for n in 0..=width {
+        // sets of n elements (distinct, so that order is observable; nested sets / collections are single elements)
+        let mut a: Vec<IppValue> = (0..n).map(|i| IppValue::Integer(100 - i as i32)).collect();
+        vals.push(IppValue::Array(a.clone()));
+        if n > 0 { a[n / 2] = IppValue::Array(vec![IppValue::Integer(1), IppValue::Integer(2)]); vals.push(IppValue::Array(a.clone())); }
+        // collections of n members whose names are inserted in an order that is neither sorted nor reverse sorted
+        let names = ["b", "a", "B", "aa", "", "z", "a-"];
+        let mut m = BTreeMap::new();
+        for i in 0..n { m.insert(names[i].to_string(), if i == 1 { IppValue::Array(vec![IppValue::Integer(9), IppValue::Integer(8)]) } else { IppValue::Integer(i as i32) }); }
+        vals.push(IppValue::Collection(m.clone()));
+        if n > 0 { let mut outer = BTreeMap::new(); outer.insert("x".to_string(), IppValue::Collection(m)); outer.insert("w".to_string(), IppValue::Boolean(false)); vals.push(IppValue::Collection(outer)); }
+    }
+    for v in &vals {
+        r.case(format!("{v:?}").as_bytes());
+        let want = expect(v);
+        let mut it = v.into_iter();
+        for (i, w) in want.iter().enumerate() {
+            match it.next() {
+                Some(g) if std::ptr::eq(g, *w) => {}
+                Some(g) => { r.fail(format!("traversing {v:?}: step {i} yields {g:?}, expected {w:?}")); return r; }
+                None => { r.fail(format!("traversing {v:?}: ends after {i} of {} values", want.len())); return r; }
+            }
+        }
+        for extra in 0..3 {
+            if let Some(g) = it.next() { r.fail(format!("traversing {v:?}: yields {g:?} after its {} values (extra call {extra})", want.len())); return r; }
+        }
+    }
+    // ---- additions onto a message with repeated / empty groups (parser-shaped): first group of the kind, else a new group at the end
+    let bases: Vec<Vec<(u8, Vec<(String, RVal)>)>> = vec![
+        vec![(1, vec![]), (4, vec![("a".into(), RVal::Int(0x21, 1))]), (2, vec![]), (4, vec![("a".into(), RVal::Int(0x21, 2)), ("b".into(), RVal::Int(0x21, 3))])],
+        vec![(2, vec![("a".into(), RVal::Int(0x21, 1))]), (2, vec![("a".into(), RVal::Int(0x21, 2))]), (1, vec![])],
+        vec![(5, vec![]), (5, vec![("b".into(), RVal::Bool(true))])],
+    ];
+    let tags = [DelimiterTag::OperationAttributes, DelimiterTag::JobAttributes, DelimiterTag::PrinterAttributes, DelimiterTag::UnsupportedAttributes];
+    for b in &bases {
+        for t1 in tags { for n1 in ["a", "b", "c"] { for t2 in tags { for n2 in ["a", "c"] {
+            let msg = imsg(&RMsg { version: 0x0101, code: 0, id: 1, groups: b.clone() });
+            let mut a = msg.attributes().clone();
+            let mut m: Model = b.iter().map(|(t, at)| (*t, at.iter().cloned().collect())).collect();
+            a.add(t1, IppAttribute::new(n1, IppValue::Integer(41)));
+            model_add(&mut m, t1 as u8, n1, RVal::Int(0x21, 41));
+            a.add(t2, IppAttribute::new(n2, IppValue::Integer(42)));
+            model_add(&mut m, t2 as u8, n2, RVal::Int(0x21, 42));
+            r.case(format!("{b:?}{t1:?}{n1}{t2:?}{n2}").as_bytes());
+            if rgroups(&a) != m { r.fail(format!("add({t1:?},{n1}); add({t2:?},{n2}) onto {b:?}: container {:?} differs from the model {m:?}", rgroups(&a))); return r; }
+            // the attribute filed under a name carries that name
+            for g in a.groups() { for (k, at) in g.attributes() { if k != at.name() { r.fail(format!("attribute {} filed under {k}", at.name())); return r; } } }
+            for t in tags {
+                let got: Vec<_> = a.groups_of(t).map(|g| g.attributes().iter().map(|(k, v)| (k.clone(), rval(v.value()))).collect::<BTreeMap<_, _>>()).collect();
+                let want: Vec<_> = m.iter().filter(|g| g.0 == t as u8).map(|g| g.1.clone()).collect();
+                if got != want { r.fail(format!("groups_of({t:?}) after additions onto {b:?}: {got:?}, expected {want:?}")); return r; }
+            }
+        } } } }
+    }
+    r
+}
+
 /// child-process mode: `bounded stack-probe <depth> <what>`: on a thread with the default 2 MiB stack of a spawned Rust thread,
 /// parse a message whose single attribute is a collection nested `depth` deep and use the result; exits 0 when everything
 /// returned, dies (abort) on stack exhaustion
@@ -705,7 +782,7 @@ fn main() {
     for c in args.get(1).map(|s| s.as_str()).unwrap_or("").split(',') {
         let rep = match c {
             "c01" => c01(thorough), "c01_utc_dir" => c01_utc_dir(thorough), "c02" => c02(thorough), "c03" => c03(thorough), "c04" => c04(thorough), "c05" => c05(thorough),
-            "c06" => c06(thorough), "c07" => c07(thorough), "c09" => c09(thorough), "c10" => c10(thorough), "container" => container(thorough),
+            "c06" => c06(thorough), "c07" => c07(thorough), "c09" => c09(thorough), "c10" => c10(thorough), "container" => container(thorough), "c19" => c19(thorough),
             x if x.starts_with("c02_stack_") => c02_stack(&x["c02_stack_".len()..], thorough),
             _ => continue,
         };
